@@ -197,7 +197,7 @@ class StaticUseDep(packages.PackageRestriction):
     def __init__(self, false_use, true_use):
         v = []
         if false_use:
-            v.append(values.ContainmentMatch(false_use, negate=True, match_all=True))
+            v.append(values.ContainmentMatch(false_use, negate=True))
         if true_use:
             v.append(values.ContainmentMatch(true_use, match_all=True))
 
@@ -221,7 +221,8 @@ class _UseDepDefaultContainment(values.ContainmentMatch, caching=False):
 
     def __init__(self, if_missing: bool, vals, negate=False):
         self.if_missing = bool(if_missing)
-        super().__init__(vals, negate=negate, match_all=True)
+        # negated: none of the flags may be set, rather than "not all of them"
+        super().__init__(vals, negate=negate, match_all=not negate)
 
     def match(self, val):
         reduced_vals = self.vals
